@@ -408,7 +408,82 @@ ReArgsJs(args, i) == IF i > Len(args) THEN <<>>
 ReCallJs(call) == <<"RES.push(String(" \o call.f \o "(">> \o ReArgsJs(call.args, 1) \o <<")))">>
 ReSeq == SetToSeq(Reents)
 
-AllCases == Params \cup Arities \cup Rets \cup Funcs \cup Backs \cup ElemWsOK \cup PFields \cup TagFields
+(* ---- the KEY conversion of bridged maps (sixth wave: a change that parsed uint8/uint16 property names with 32 bits and  *)
+(* let reflect.Convert wrap them was missed - the only integer-keyed live map was map[int]string with names "1", "2",      *)
+(* "abc", "1.5").  Product: key kind (every integer width, signed and unsigned, plain and named type; string) x property   *)
+(* name class x operation.  The contract (statement of C16, "the same checked conversion"): a property name is a key of    *)
+(* map[K]V iff it is String(k) for a value k of K - the canonical decimal text of an integer within the range of K (the    *)
+(* text Object.keys lists); every other name (out of range for the width, negative for unsigned, a sign, leading zeros,    *)
+(* Go literal syntax, fractions, blanks, non-numeric) is NOT a key and aliases nothing: read undefined, in/hasOwnProperty  *)
+(* false, delete true without effect, write a TypeError.                                                                   *)
+MkNone == [c |-> "none"]
+MkKinds == S!IntKinds \cup {"string"}
+MkCanonZ == {I(0), I(1), I(2), I(3), I(-1), I(-2)}
+            \cup UNION {{ZSub(w - 1, 1), P2(w - 1), ZAdd(w - 1, 1), ZSub(w, 1), P2(w), ZAdd(w, 1), ZAdd(w, 2),
+                         S!NumNeg(P2(w - 1)), S!NumNeg(ZAdd(w - 1, 1)), S!NumNeg(ZAdd(w, 1))} : w \in {8, 16, 32, 64}}
+MkOddNames == {<<43, 49>>, <<48, 49>>, <<48, 48>>, <<48, 49, 48>>, <<48, 120, 49>>, <<48, 88, 49, 48>>, <<48, 98, 49>>, <<48, 111, 49>>,
+               <<49, 95, 48>>, <<45, 48>>, <<45, 48, 49>>, <<43, 48>>, <<49, 46, 48>>, <<49, 46, 53>>, <<49, 101, 48>>, <<32, 49>>, <<49, 32>>,
+               <<>>, <<97, 98, 99>>, <<45>>, <<48, 120>>, <<95, 49>>, <<49, 95>>, <<48, 95, 49>>, <<48, 120, 102, 102>>, <<45, 48, 120, 49>>,
+               <<49, 48>>, <<45, 51>>}
+MkNames == {[s |-> S!DigitsZ(z), z |-> z] : z \in MkCanonZ} \cup {[s |-> s, z |-> MkNone] : s \in MkOddNames}
+MkOps == {"read", "write", "delete", "in", "hasown"}
+MapKeyCases == {[fam |-> "mapkey", k |-> k, named |-> nm, mode |-> m, name |-> n.s, z |-> n.z] : k \in MkKinds, nm \in BOOLEAN, m \in MkOps, n \in MkNames}
+
+(* strconv.ParseInt(s, 0, .) on a short text: optional sign, 0x / 0b / 0o prefix (only before at least one more     *)
+(* character), a leading 0 means octal, "_" may separate digits.  Used (a) to recognise canonical decimal texts:    *)
+(* DigitsInt(value) = s, and (b) as what otto does under the named deviation.  Result [ok, signed, v].              *)
+MkDigit(c) == IF c >= 48 /\ c <= 57 THEN c - 48 ELSE IF c >= 97 /\ c <= 102 THEN c - 87 ELSE IF c >= 65 /\ c <= 70 THEN c - 55 ELSE 99
+RECURSIVE MkDigits(_, _, _, _, _)
+MkDigits(s, i, base, acc, prev) ==       \* prev: "d" a digit (or a prefix), "u" an underscore, "b" the beginning; -1: not a number
+    IF i > Len(s) THEN (IF prev = "u" THEN -1 ELSE acc)
+    ELSE IF s[i] = 95 THEN (IF prev = "d" THEN MkDigits(s, i + 1, base, acc, "u") ELSE -1)
+    ELSE IF MkDigit(s[i]) < base THEN MkDigits(s, i + 1, base, acc * base + MkDigit(s[i]), "d") ELSE -1
+MkLower(c) == IF c >= 65 /\ c <= 90 THEN c + 32 ELSE c
+MkParse0(s) ==
+    LET signed == Len(s) >= 1 /\ s[1] \in {43, 45}
+        body == IF signed THEN Tail(s) ELSE s
+        v == IF body = <<>> THEN -1
+             ELSE IF body[1] = 48 /\ Len(body) >= 3 /\ MkLower(body[2]) = 120 THEN MkDigits(body, 3, 16, 0, "d")
+             ELSE IF body[1] = 48 /\ Len(body) >= 3 /\ MkLower(body[2]) = 98 THEN MkDigits(body, 3, 2, 0, "d")
+             ELSE IF body[1] = 48 /\ Len(body) >= 3 /\ MkLower(body[2]) = 111 THEN MkDigits(body, 3, 8, 0, "d")
+             ELSE IF body[1] = 48 THEN MkDigits(body, 2, 8, 0, "d")
+             ELSE MkDigits(body, 1, 10, 0, "b")
+    IN  [ok |-> v >= 0, signed |-> signed, v |-> IF signed /\ s[1] = 45 THEN -v ELSE v]
+(* the key (as the text Object.keys lists) a property name denotes: <<key>> or <<>> *)
+MkKey(dev, name, z, k) ==
+    IF k = "string" THEN <<name>>
+    ELSE IF z # MkNone THEN (IF S!InRangeZ(z, k) THEN <<name>> ELSE <<>>)
+    ELSE LET p == MkParse0(name) IN
+         IF ~p.ok THEN <<>>
+         ELSE IF dev THEN (IF (p.signed /\ k \in S!UIntKinds) \/ ~S!InRangeZ(I(p.v), k) THEN <<>> ELSE <<S!DigitsZ(I(p.v))>>)   \* value.go stringToReflectValue: ParseInt / ParseUint with base 0
+         ELSE IF S!DigitsZ(I(p.v)) = name /\ S!InRangeZ(I(p.v), k) THEN <<name>> ELSE <<>>
+RECURSIVE MkIns(_, _)
+MkIns(seq, e) == IF seq = <<>> THEN <<e>> ELSE IF S!StrCmp(e, seq[1]) < 0 THEN <<e>> \o seq ELSE <<seq[1]>> \o MkIns(Tail(seq), e)
+RECURSIVE MkSort(_)
+MkSort(seq) == IF seq = <<>> THEN <<>> ELSE MkIns(MkSort(Tail(seq)), seq[1])
+(* the map before the operation: 0, 1, 2 and the ends of the key range (values 1, 2, ... in the order of the sorted key texts) *)
+MkInitKeys(k) == IF k = "string" THEN <<<<48>>, <<49>>, <<50>>>>
+                 ELSE MkSort(SetToSeq({S!DigitsZ(z) : z \in {I(0), I(1), I(2), S!LoOf(k), S!HiOf(k)} \cup (IF k \in S!SIntKinds THEN {I(-1)} ELSE {})}))
+MkIdx(keys, key) == {i \in 1..Len(keys) : keys[i] = key}
+MapKeyAccess(dev, c) ==
+    LET keys == MkInitKeys(c.k)
+        vals == [i \in 1..Len(keys) |-> i]
+        ko == MkKey(dev, c.name, c.z, c.k)
+        ix == IF ko = <<>> THEN {} ELSE MkIdx(keys, ko[1])
+        i0 == CHOOSE i \in ix : TRUE
+        R(thr, ret, ks, vs) == [thr |-> thr, ret |-> ret, keys |-> ks, vals |-> vs, jskeys |-> ks]
+    IN  CASE c.mode = "read" -> R("", IF ix = {} THEN S!Undef ELSE IntV(vals[i0]), keys, vals)
+          [] c.mode \in {"in", "hasown"} -> R("", S!BoolV(ix # {}), keys, vals)
+          [] c.mode = "delete" -> IF ix = {} THEN R("", S!BoolV(TRUE), keys, vals)                       \* 8.12.7: no such property
+                                  ELSE R("", S!BoolV(TRUE), [j \in 1..Len(keys) - 1 |-> keys[IF j < i0 THEN j ELSE j + 1]], [j \in 1..Len(keys) - 1 |-> vals[IF j < i0 THEN j ELSE j + 1]])
+          [] c.mode = "write" ->
+                IF ko = <<>> THEN R("TypeError", S!Undef, keys, vals)                                    \* not a value of the key type: fails loudly, nothing stored
+                ELSE IF ix # {} THEN R("", IntV(9), keys, [vals EXCEPT ![i0] = 9])
+                ELSE LET nk == MkIns(keys, ko[1]) IN R("", IntV(9), nk, [j \in 1..Len(nk) |-> IF nk[j] = ko[1] THEN 9 ELSE vals[CHOOSE i \in 1..Len(keys) : keys[i] = nk[j]]])
+MkDev == "D16_map_key_go_literal_syntax_aliases" \in OpenDev
+
+
+AllCases == Params \cup Arities \cup Rets \cup Funcs \cup Backs \cup ElemWsOK \cup PFields \cup TagFields \cup MapKeyCases
 
 Js(c) == CASE c.fam \in {"param", "elemw"} -> JsParts(c.v)
            [] c.fam = "graph" -> GraphJs(c)
@@ -428,6 +503,7 @@ ExpectS(c) ==
       [] c.fam = "back" -> S!BridgedToParam(c.isptr, c.src, c.ty)
       [] c.fam = "elemw" -> (LET r == S!ElemWriteOutcome(c.v, c.k, S!GInt(c.k, I(1))) IN [thr |-> r.thr, elem |-> r.elem, js |-> S!ElemJS(r.elem)])
       [] c.fam = "tagfield" -> S!TagAccess(c.mode, c.name)
+      [] c.fam = "mapkey" -> MapKeyAccess(FALSE, c)
       [] c.fam = "graph" -> GraphExpect(c)
       [] c.fam = "reent" -> ReExpect(FALSE, c)
       [] c.fam = "pfield" -> (LET r == S!DocPtrCall(c.d, c.sel) IN [thr |-> r.thr, same |-> r.same, js |-> S!PlacedJS(c.where, r.d), go |-> r.d])
@@ -439,6 +515,7 @@ ExpectL(c) ==
       [] c.fam = "back" -> L!BridgedToParam(c.isptr, c.src, c.ty)
       [] c.fam = "elemw" -> (LET r == L!ElemWriteOutcome(c.v, c.k, S!GInt(c.k, I(1))) IN [thr |-> r.thr, elem |-> r.elem, js |-> S!ElemJS(r.elem)])
       [] c.fam = "tagfield" -> L!TagAccess(c.mode, c.name)
+      [] c.fam = "mapkey" -> MapKeyAccess(MkDev, c)
       [] c.fam = "graph" -> GraphExpect(c)         \* no open deviation touches the export of containers
       [] c.fam = "reent" -> ReExpect(TRUE, c)
       [] c.fam = "pfield" -> (LET r == L!DocPtrCall(c.d, c.sel) IN [thr |-> r.thr, same |-> r.same, js |-> S!PlacedJS(c.where, r.d), go |-> r.d])
